@@ -442,6 +442,15 @@ class Engine:
 
     def _check(self, *assumptions, kind='branch', fallback=True):
         t0 = time.perf_counter()
+        # the per-path watchdog measures the code under test, not the solver
+        left = signal.setitimer(signal.ITIMER_REAL, 0)[0]
+        try:
+            return self._check2(assumptions, kind, fallback, t0)
+        finally:
+            if left > 0:
+                signal.setitimer(signal.ITIMER_REAL, max(left, 0.05))
+
+    def _check2(self, assumptions, kind, fallback, t0):
         r = self.solver.check(*assumptions)
         self._fresh_model = None
         if r == z3.unknown and fallback:
